@@ -45,6 +45,27 @@ CONCEPTS = ['have-org-role-91', 'be-located-at-91', 'have-mod-91', 'x', None, 'h
 MODEL_NAMES = ['default', 'amr', 'noop', 'miniamr', 'custom']
 
 
+class SeqIter:
+    """an iterator whose remaining items can be looked at (the abstract view `iterator.seq`)"""
+    def __init__(self, items):
+        self._items = list(items)
+        self._i = 0
+
+    def __iter__(self):
+        return self
+
+    def __next__(self):
+        if self._i >= len(self._items):
+            raise StopIteration
+        v = self._items[self._i]
+        self._i += 1
+        return v
+
+    @property
+    def seq(self):
+        return self._items[self._i:]
+
+
 class Ctx:
     """one generation context: a tree, the graph it reads as, a model"""
     def __init__(self, rnd):
@@ -129,14 +150,20 @@ def value_for(ctx, target, pname, kind, sofar):
         from penman._lexer import lex
         text = r.choice([penman.format(ctx.tree), '(a / b :c "d" :e 1.5)', 'a b ( ) / :r', '', '(a', 'instance(a, b) ^ r(a, c)',
                          '# ::id 1\n(a / b)', '(a / "unterminated'])
+        from penman._lexer import TokenIterator
         try:
-            it = lex(text, pattern=r.choice([None, None, None]))
-            for _ in range(r.randint(0, 4)):
-                if it:
-                    it.next()
-            return it
+            toks = list(lex(text).iterator) if False else None
+            it0 = lex(text)
+            toks = []
+            while it0:
+                toks.append(it0.next())
         except Exception:
-            return lex('(a / b)')
+            toks = []
+        it = TokenIterator(SeqIter(toks))
+        for _ in range(r.randint(0, 4)):
+            if it:
+                it.next()
+        return it
     if pname in ('t', 'node') and kind == 'val':
         return r.choice(ctx.nodes)
     if pname in ('triple', 'instance_triple', 'source_triple', 'target_triple'):
@@ -236,12 +263,12 @@ def snapshot(x):
     if hasattr(x, '_role_re') or callable(x):
         return None
     if type(x).__name__ == 'TokenIterator':
-        return None
+        return repr((x._next, x._last, getattr(x.iterator, 'seq', None)))
     return repr(x) if not isinstance(x, (set, frozenset)) else repr(sorted(map(repr, x)))
 
 
 def clone(x):
-    if hasattr(x, '_role_re') or callable(x) or type(x).__name__ == 'TokenIterator':
+    if hasattr(x, '_role_re') or callable(x):
         return x
     try:
         return copy.deepcopy(x)
@@ -270,6 +297,7 @@ def ser_arg(x):
 
 def sweep(targets, n, seed, sidecar):
     rnd = random.Random(seed)
+    dsl.link_sidecars()
     cmods = {}
     out = {'evaluations': 0, 'skipped': 0, 'per_target': {}, 'failures': [], 'unsupported': {}}
     for target in targets:
@@ -286,6 +314,9 @@ def sweep(targets, n, seed, sidecar):
             out['unsupported'][target] = 'cannot resolve: %s' % e
             continue
         allowed = {e for e, _ in c.raises}
+        real = fn.fget if isinstance(fn, property) else fn
+        code = getattr(real, '__code__', None) or getattr(getattr(real, '__func__', None), '__code__', None)
+        whitebox = tuple(n for n in (code.co_varnames if code else ()) if n not in [p for p, _ in c.params])
         stats = {'evaluated': 0, 'skipped': 0, 'raised_allowed': 0}
         seen_fail = set()
         for k in range(n):
@@ -314,7 +345,7 @@ def sweep(targets, n, seed, sidecar):
             entry = [clone(a) for a in args]
             snaps = [snapshot(a) for a in args]
             # preconditions first (on the entry values)
-            rec = dsl.evaluate(cfn, [clone(a) for a in entry], dsl.ANY, {})
+            rec = dsl.evaluate(cfn, [clone(a) for a in entry], dsl.ANY, {}, whitebox)
             if any(kind == 'requires' and v is False for kind, _, v in rec) or \
                     any(kind == 'error' for kind, _, v in rec if False):
                 stats['skipped'] += 1
@@ -385,9 +416,15 @@ def sweep(targets, n, seed, sidecar):
                     cargs.append(a)      # unchanged: the object itself (markers compare by identity)
                 else:
                     cargs.append(e0)
-            rec = dsl.evaluate(cfn, cargs, res, olds)
+            rec = dsl.evaluate(cfn, cargs, res, olds, whitebox)
             ordinal = -1
             for kind, label, v in rec:
+                if kind == 'error':
+                    stats['clause_errors'] = stats.get('clause_errors', 0) + 1
+                    stats.setdefault('clause_error_sample', str(v)[:120])
+                if kind == 'ensures':
+                    stats['clauses_judged' if v is not None else 'clauses_not_judged'] = \
+                        stats.get('clauses_judged' if v is not None else 'clauses_not_judged', 0) + 1
                 if kind == 'ensures':
                     ordinal += 1
                     if label is None:
